@@ -90,6 +90,8 @@ def kernel_source(k):
     lines.append("    marks[0] += 1; //only_for_context cpu_serial cpu_openmp")
     lines.append("    marks[1] += 1; //only_for_context opencl")
     lines.append("    marks[2] += 1; //only_for_context cuda")
+    lines.append("    marks[3] += 1; //only_for_context cpu_serial")
+    lines.append("    marks[4] += 1; //only_for_context cpu_openmp")
     for bi, b in enumerate(k["blocks"]):
         v = b["var"]
         lines.append("    //vectorize_over %s n" % v)
@@ -112,7 +114,7 @@ int main(int argc, char** argv){
   int* log = calloc(nb*(n+4)+8, sizeof(int)); int* marks = calloc(8, sizeof(int));
   %(launch)s
   for (int i=0;i<nb*(n+4);i++) printf("%%d ", log[i]);
-  printf("| %%d %%d %%d\n", marks[0], marks[1], marks[2]);
+  printf("| %%d %%d %%d %%d %%d\n", marks[0], marks[1], marks[2], marks[3], marks[4]);
   return 0;
 }
 '''
@@ -125,7 +127,8 @@ def exec_case(k, workdir):
     nb = len(k["blocks"])
     res = {}
     # ---- real CPU contexts
-    for tg, omp in (("cpu_serial", 0), ("cpu_openmp", 2)):
+    # (an OpenMP context with ONE thread is still an OpenMP context: it must get the cpu_openmp text)
+    for tg, omp in (("cpu_serial", 0), ("cpu_openmp", 2), ("cpu_openmp/1-thread", 1)):
         r = {}
         try:
             ctx = xo.ContextCpu(omp_num_threads=omp)
@@ -134,7 +137,7 @@ def exec_case(k, workdir):
             for n in k["ns"]:
                 log = np.zeros(nb * (n + 4) + 8, dtype=np.int32); marks = np.zeros(8, dtype=np.int32)
                 ctx.kernels.kk(n=n, log=log, marks=marks)
-                r[str(n)] = {"log": [int(x) for x in log[:nb * (n + 4)]], "marks": [int(x) for x in marks[:3]]}
+                r[str(n)] = {"log": [int(x) for x in log[:nb * (n + 4)]], "marks": [int(x) for x in marks[:5]]}
         except BaseException as e:  # noqa
             r["exc"] = type(e).__name__; r["msg"] = str(e)[-400:]
         res[tg] = r
